@@ -25,6 +25,29 @@ def is_limit(e: ast.AST) -> bool:
     return d.rsplit(".", 1)[-1].lstrip("_") == "examples_per_shard"
 
 
+def fresh_record_value(ctx: Context, st: ast.AST) -> int | None:
+    """`x = ShardProgress(<shard>[, written_examples=k])` (a new progress
+    record, bound to a local or stored in the registry): the counter value k
+    the record starts with (class default when omitted); None otherwise."""
+    if not isinstance(st, (ast.Assign, ast.AnnAssign)) or st.value is None:
+        return None
+    v = st.value
+    if not (isinstance(v, ast.Call) and (dotted(v.func) or "").rsplit(
+            ".", 1)[-1] == "ShardProgress"):
+        return None
+    e = Context.arg(v, 1, COUNTER)
+    if e is None:
+        ci = ctx.repo.cls(f"{WRITE_EXAMPLE.split(':')[0]}:ShardProgress")
+        # dataclass default
+        for n in ci.node.body:
+            if isinstance(n, ast.AnnAssign) and isinstance(
+                    n.target, ast.Name) and n.target.id == COUNTER:
+                e = n.value
+    if isinstance(e, ast.Constant) and type(e.value) is int:
+        return e.value
+    return None
+
+
 def check_couple(ctx: Context, rep, rule: str) -> None:
     from sa.rules.common import reaches, helper_assigns
     we = ctx.fn(WRITE_EXAMPLE)
@@ -43,14 +66,16 @@ def check_couple(ctx: Context, rep, rule: str) -> None:
         "with `written_examples = 0`, after the close of the previous shard; "
         "every counter reset sits with a shard rebinding")
     def assigns_shard(st):
-        return isinstance(st, ast.Assign) and any(
+        # the record's shard is re-pointed, or a fresh record takes over
+        return (isinstance(st, ast.Assign) and any(
             isinstance(t, ast.Attribute) and t.attr == "shard"
-            for t in st.targets)
+            for t in st.targets)) or fresh_record_value(ctx, st) is not None
 
     def resets_counter(st):
-        return isinstance(st, ast.Assign) and any(
+        return (isinstance(st, ast.Assign) and any(
             is_counter(t) for t in st.targets) and isinstance(
-                st.value, ast.Constant) and st.value.value == 0
+                st.value, ast.Constant) and st.value.value == 0) or \
+            fresh_record_value(ctx, st) == 0
 
     norm = lambda a, b, lab: lab not in ("exc", "raise")  # noqa: E731
     opens = [n for n in cfg.nodes if (n.kind == "stmt" and assigns_shard(n.ast))
@@ -68,8 +93,15 @@ def check_couple(ctx: Context, rep, rule: str) -> None:
             isinstance(t, ast.Subscript) and (dotted(t.value) or "").endswith(
                 "_current_shards_progress") for t in st.targets)
 
-    updates = opens + [n for n in cfg.nodes if n.kind == "stmt" and
-                       registry_store(n.ast)]
+    def mutates_record(st):
+        return isinstance(st, ast.Assign) and any(
+            isinstance(t, ast.Attribute) and t.attr == "shard"
+            for t in st.targets)
+
+    updates = [n for n in cfg.nodes if (n.kind == "stmt" and (
+        registry_store(n.ast) or mutates_record(n.ast))) or (
+            n.kind == "call" and helper_assigns(ctx, we, n.ast,
+                                                mutates_record))]
     for cs in close_sites:
         after_c = cfg.reachable([cs], avoiding=updates, strict=True, follow=norm)
         stale = [w for w in writes if w in after_c]
@@ -82,6 +114,50 @@ def check_couple(ctx: Context, rep, rule: str) -> None:
                path=cfg.describe_path(cfg.path_to(stale[0])) if stale else "")
     if not opens:
         raise AnalysisError("C10.couple: no shard rebinding in write_example")
+    def first_use(node) -> bool:
+        """a fresh record created because the split has none yet (under
+        `split not in <registry>`): there is no previous shard to close"""
+        if node.kind != "stmt" or fresh_record_value(ctx, node.ast) is None:
+            return False
+        from sa.model import ancestors as _anc
+        tgt = node.ast.targets[0] if isinstance(node.ast, ast.Assign) \
+            else node.ast.target
+        for a in _anc(node.ast):
+            if not (isinstance(a, ast.If) and any(
+                    node.ast is x for s in a.body for x in ast.walk(s))):
+                continue
+            t = a.test
+            if isinstance(t, ast.Compare) and len(t.ops) == 1 and isinstance(
+                    t.ops[0], ast.NotIn) and (dotted(
+                        t.comparators[0]) or "").endswith(
+                            "_current_shards_progress"):
+                return True
+            # `rec = registry.get(split)` ... `if rec is None:` / `if not rec:`
+            sub = None
+            if isinstance(t, ast.Compare) and len(t.ops) == 1 and isinstance(
+                    t.ops[0], ast.Is) and isinstance(
+                        t.comparators[0], ast.Constant) and \
+                    t.comparators[0].value is None:
+                sub = t.left
+            elif isinstance(t, ast.UnaryOp) and isinstance(t.op, ast.Not):
+                sub = t.operand
+            if isinstance(sub, ast.Name) and isinstance(tgt, ast.Name) and \
+                    sub.id == tgt.id and any(
+                        isinstance(x, (ast.Assign, ast.AnnAssign)) and
+                        x.value is not None and isinstance(
+                            x.value, ast.Call) and isinstance(
+                                x.value.func, ast.Attribute) and
+                        x.value.func.attr == "get" and (dotted(
+                            x.value.func.value) or "").endswith(
+                                "_current_shards_progress") and dotted(
+                                    x.targets[0] if isinstance(x, ast.Assign)
+                                    else x.target) == sub.id
+                        for x in we.body_nodes()):
+                return True
+        return False
+
+    opens = [o for o in opens if not first_use(o)]
+    resets = [r for r in resets if not first_use(r)]
     for o in opens:
         after = cfg.reachable([o], avoiding=resets, strict=True, follow=norm)
         if o in resets:
@@ -222,7 +298,8 @@ def run(ctx: Context, rep) -> None:
         "than the limit), d <= 0 at every normal and exceptional exit, and "
         "the size test alone implies d >= 0 (only full shards roll over when "
         "the metadata did not change)")
-    ci = CounterInterval(cfg, is_counter, is_limit, entry=(None, 0))
+    ci = CounterInterval(cfg, is_counter, is_limit, entry=(None, 0),
+                         fresh_value=lambda st: fresh_record_value(ctx, st))
     writes = [
         n for n in cfg.calls()
         if isinstance(n.ast.func, ast.Attribute) and n.ast.func.attr == "write"
